@@ -117,7 +117,11 @@ def run(prop, harness, kwargs, mode):
         args = {k: (int(v) if not isinstance(v, bool) else v) for k, v in args.items()}
     except Exception:
         args = None
-    ACCT.failure = {"signature": sig, "detail": out.detail, "trace": list(tr), "args": args}
+    try:
+        detail = str(_realize(out.detail))
+    except Exception:
+        detail = "<unrealisable>"
+    ACCT.failure = {"signature": sig, "detail": detail, "trace": list(tr), "args": args}
     return False
 
 
@@ -129,7 +133,7 @@ def choose(var, n):
     if n <= 1:
         return 0
     for i in range(1, n):
-        if var == i:
+        if sym_eq(var, i):
             return i
     return 0
 
@@ -162,14 +166,87 @@ class _Null:
         return False
 
 
-def notrace():
-    """Suspend CrossHair's opcode tracing for harness code that only handles concrete values.
+_SUSPENDED = [0]
 
-    Outside CrossHair (concrete replay) this is a no-op."""
+
+class _NoTrace:
+    def __init__(self, inner):
+        self.inner = inner
+
+    def __enter__(self):
+        _SUSPENDED[0] += 1
+        return self.inner.__enter__()
+
+    def __exit__(self, *a):
+        _SUSPENDED[0] -= 1
+        return self.inner.__exit__(*a)
+
+
+def notrace():
+    """Suspend CrossHair's opcode tracing for harness code that only moves concrete values around.
+
+    Symbolic integers must then only be touched through sym_eq()/choose()/Sched.pick(), which resume
+    tracing for the comparison itself.  Outside CrossHair (concrete replay) this is a no-op."""
     try:
         from crosshair.tracers import NoTracing, is_tracing
         if is_tracing():
-            return NoTracing()
+            return _NoTrace(NoTracing())
     except Exception:
         pass
     return _Null()
+
+
+def sym_eq(var, i):
+    """``var == i`` decided by the solver (forks the path) even while tracing is suspended."""
+    if type(var) is int or type(var) is bool:
+        return var == i
+    if _SUSPENDED[0]:
+        from crosshair.tracers import ResumedTracing
+        with ResumedTracing():
+            return bool(var == i)
+    return bool(var == i)
+
+
+def sym_lt(var, i):
+    if type(var) is int or type(var) is bool:
+        return var < i
+    if _SUSPENDED[0]:
+        from crosshair.tracers import ResumedTracing
+        with ResumedTracing():
+            return bool(var < i)
+    return bool(var < i)
+
+
+def conc(v, n):
+    """Concretise a symbolic int in range(n) by branching (binary search: log2(n) solver decisions)."""
+    lo, hi = 0, n - 1
+    if hi <= 0:
+        return 0
+    if type(v) is int or type(v) is bool:
+        return v if 0 <= v <= hi else 0
+    if sym_lt(v, 0) or not sym_lt(v, n):
+        return 0
+    while lo < hi:
+        mid = (lo + hi + 1) // 2
+        if sym_lt(v, mid):
+            hi = mid - 1
+        else:
+            lo = mid
+    return lo
+
+
+def is_sym(v):
+    return type(v).__module__.startswith("crosshair")
+
+
+def sym_same(a, b):
+    """a == b where either side may be a symbolic integer (decided by the solver)."""
+    if not (is_sym(a) or is_sym(b)):
+        return type(a) is type(b) and a == b
+    if isinstance(a, (str, bytes, list, tuple, dict)) or isinstance(b, (str, bytes, list, tuple, dict)) or a is None or b is None:
+        return False
+    if _SUSPENDED[0]:
+        from crosshair.tracers import ResumedTracing
+        with ResumedTracing():
+            return bool(a == b)
+    return bool(a == b)
